@@ -5,14 +5,14 @@ cd "$(dirname "$0")"
 if [ ! -d .pydeps/jsonschema ]; then
   /venv/bin/pip install -q --no-index --find-links /opt/veriftools/wheels --target .pydeps jsonschema >/dev/null 2>&1 || echo "warning: jsonschema not installed"
 fi
-export PYTHONPATH=/repo:/verif:/verif/.pydeps PYTHONHASHSEED=0 PYTHONDONTWRITEBYTECODE=1
+export PYTHONPATH="${VERIF_REPO:-/repo}:$(pwd):$(pwd)/.pydeps" PYTHONHASHSEED=0 PYTHONDONTWRITEBYTECODE=1
 /venv/bin/python tools/gen_kernels.py >/dev/null
 /venv/bin/python -c "from harness import vlib; vlib.ensure_makefile()"
 cd coq
-mkdir -p /verif/.log
+mkdir -p ../.log
 # -k: a proof that does not check (e.g. against an edited /repo) must not stop the rest
-timeout 3000 make -k -j14 >/verif/.log/setup_make.log 2>&1
+timeout 3000 make -k -j14 >../.log/setup_make.log 2>&1
 rc=$?
-tail -5 /verif/.log/setup_make.log
+tail -5 ../.log/setup_make.log
 echo "setup: make exit $rc"
 exit 0
